@@ -45,7 +45,7 @@ getMetadata setMetadata tag increment append max getKey writeTags writeTagsForev
 reloadAggregationSchemas buildProtocol clientConnectionMade clientConnectionLost clientConnectionFailed startClient
 stopClient getFactories getDestinations sendDatapoint read_from read_rules parse_definition decode
 sanitize_name_as_tag_value setupPipeline setupRelayProcessor setupWriterProcessor setupAggregatorProcessor
-setupRewriterProcessor setupReceivers
+setupRewriterProcessor setupReceivers readFrom recordMetrics clientConnectionMade test mark_inactive
 """.split())
 
 
@@ -215,6 +215,8 @@ class Inliner(object):
     outer = getattr(self, '_cur_locals', None)
     self._cur_locals = _locals_of(node) | (outer or set())
     try:
+      if _desugar_yield_from(node, only_non_calls=True):
+        inlined.append('<flag>')
       node.body = self._delegations(node.body, fi, [fi.key], inlined, True)
       node.body = self._block(node.body, fi, [fi.key], inlined, 0)
       # calls that came in with a spliced body and whose receiver is a name of this function (self.helper2(...) inside
@@ -367,6 +369,10 @@ class Inliner(object):
   # ------------------------------------------------------------------ statements
   def _block(self, stmts, fn, stack, inlined, depth):
     ex = _expand_dispatch(list(stmts), getattr(self, '_module', None) or getattr(fn, 'module', None))
+    if ex is not None:
+      stmts = ex
+      inlined.append('<flag>')
+    ex = _statement_forms(list(stmts), getattr(self, '_cur_locals', set()))
     if ex is not None:
       stmts = ex
       inlined.append('<flag>')
@@ -576,8 +582,10 @@ class Inliner(object):
   def _callee(self, call, fn):
     f = call.func
     if isinstance(f, ast.Attribute) and not (isinstance(f.value, ast.Name) and (f.value.id in ('self', 'cls') or f.value.id[:1].isupper())):
-      # self.<attr>.method(...): a collaborator object of this class, defined in the same module
-      if not (isinstance(f.value, ast.Attribute) and isinstance(f.value.value, ast.Name) and f.value.value.id == 'self'):
+      # self.<attr>.method(...): a collaborator object of this class; <local>.method(...): an object held in a plain local
+      # whose class the type inference knows (a loop variable over a list of rule objects)
+      if not (isinstance(f.value, ast.Attribute) and isinstance(f.value.value, ast.Name) and f.value.value.id == 'self') and \
+         not isinstance(f.value, ast.Name):
         return None
     if not isinstance(f, (ast.Name, ast.Attribute)):
       return None
@@ -587,6 +595,12 @@ class Inliner(object):
       cs, how = self.T.callees(call, fn.module, getattr(fn, 'original', fn), byname_fallback=False)
     except Exception:
       return None
+    if (how != 'resolved' or len(cs) != 1) and isinstance(f, ast.Attribute) and isinstance(f.value, ast.Name) and \
+       f.value.id not in ('self', 'cls') and not f.value.id[:1].isupper():
+      # <local>.method(...) whose class is not inferred: a method name defined exactly once in the whole program
+      owners = [c_ for c_ in self.repo.all_classes() if f.attr in c_.methods]
+      if len(owners) == 1 and not f.attr.startswith('__') and len(f.attr) > 6:
+        cs, how = [(owners[0].methods[f.attr], 'method')], 'resolved'
     if how != 'resolved' or len(cs) != 1:
       return None
     callee, via = cs[0]
@@ -904,13 +918,14 @@ class Inliner(object):
 
 # ---------------------------------------------------------------------- helpers
 
-def _desugar_yield_from(defnode):
-  """`yield from E` used as a statement (what is left after generator helpers were spliced)  ->  for v in E: yield v"""
-  n = [0]
+def _desugar_yield_from(defnode, only_non_calls=False):
+  """`yield from E` used as a statement (what is left after generator helpers were spliced)  ->  for v in E: yield v
+  only_non_calls: leave `yield from f(...)` alone (a generator helper that the delegation pass may still splice)."""
+  n = [getattr(defnode, '_yf_count', 0)]
 
   class Y(ast.NodeTransformer):
     def visit_Expr(self, st):
-      if isinstance(st.value, ast.YieldFrom):
+      if isinstance(st.value, ast.YieldFrom) and not (only_non_calls and isinstance(st.value.value, ast.Call)):
         n[0] += 1
         v = '__yf%d' % n[0]
         y = ast.Expr(value=ast.Yield(value=ast.Name(id=v, ctx=ast.Load())))
@@ -928,9 +943,11 @@ def _desugar_yield_from(defnode):
 
     def visit_Lambda(self, node):
       return node
+  before = n[0]
   for field in ('body',):
     defnode.body = [Y().visit(st) for st in defnode.body]
-  return n[0] > 0
+  defnode._yf_count = n[0]
+  return n[0] > before
 
 
 def _split_parallel_assignments(defnode):
@@ -1435,6 +1452,64 @@ def _plain_element(e):
   if isinstance(e, ast.Attribute):
     return _plain_element(e.value)
   return False
+
+
+_FORM_K = [0]
+
+
+def _statement_forms(block, taken):
+  """two spellings brought to the statement form rules read:
+       x = A if c else B   (also `return`, `self.a = ...`)      ->   if c: x = A   else: x = B
+       for v in (E for t in IT if COND): BODY                   ->   for t' in IT: if COND': v = E'; BODY
+  (the generator expression is consumed lazily by the loop, so evaluation order is unchanged; its variables are renamed
+  apart because they move into the function's scope)."""
+  changed = False
+  out = []
+  for st in block:
+    v = getattr(st, 'value', None)
+    if isinstance(st, (ast.Assign, ast.Return)) and isinstance(v, ast.IfExp) and \
+       not any(isinstance(x, (ast.Yield, ast.YieldFrom, ast.Await, ast.NamedExpr)) for x in ast.walk(st)) and \
+       (isinstance(st, ast.Return) or all(isinstance(t, (ast.Name, ast.Attribute)) for t in st.targets)):
+      a, b = _clone(st), _clone(st)
+      a.value, b.value = v.body, v.orelse
+      new = ast.If(test=v.test, body=[a], orelse=[b])
+      ast.copy_location(new, st)
+      ast.fix_missing_locations(new)
+      out.append(new)
+      changed = True
+      continue
+    if isinstance(st, ast.For) and not st.orelse and isinstance(st.iter, ast.GeneratorExp) and len(st.iter.generators) == 1 and \
+       not st.iter.generators[0].is_async and isinstance(st.target, ast.Name):
+      g = st.iter.generators[0]
+      _FORM_K[0] += 1
+      tn = {x.id for x in ast.walk(g.target) if isinstance(x, ast.Name)}
+      ren = {n: '%s__g%d' % (n, _FORM_K[0]) for n in tn}
+
+      def rn(node):
+        node = _clone(node)
+        for x in ast.walk(node):
+          if isinstance(x, ast.Name) and x.id in ren:
+            x.id = ren[x.id]
+        return node
+      bind = ast.Assign(targets=[ast.Name(id=st.target.id, ctx=ast.Store())], value=rn(st.iter.elt))
+      body = [bind] + list(st.body)
+      for cond in reversed(g.ifs):
+        body = [ast.If(test=rn(cond), body=body, orelse=[])]
+      tgt = rn(g.target)
+      for x in ast.walk(tgt):
+        if hasattr(x, 'ctx'):
+          x.ctx = ast.Store()
+      loop = ast.For(target=tgt, iter=g.iter, body=body, orelse=[])
+      ast.copy_location(loop, st)
+      for x in ast.walk(loop):
+        if not hasattr(x, 'lineno') and isinstance(x, (ast.expr, ast.stmt)):
+          ast.copy_location(x, st)
+      ast.fix_missing_locations(loop)
+      out.append(loop)
+      changed = True
+      continue
+    out.append(st)
+  return out if changed else None
 
 
 def _dispatch_table(module, name):
